@@ -221,6 +221,7 @@ var stringCodecs = map[string]StringCodec{
 	"utf-8":     utf8Codec,
 	"base64":    base64Codec{},
 	"base64Url": base64UrlCodec{},
+	"base64url": base64UrlCodec{},
 }
 
 func expandSlice(b []byte, l int) (dst, res []byte) {
